@@ -182,8 +182,12 @@ def qnv_tree_violations(ttns, max_report=4):
         if qn.shape[0] != a.shape[-1]:
             out.append(f"node {ttns.node_idx[snode]}: qn rows {qn.shape[0]} != parent bond {a.shape[-1]}")
             continue
-        scale = np.abs(a).max() if a.size else 0
-        for idx in zip(*np.nonzero(np.abs(a) > 1e-14 * max(scale, 1e-300))):
+        if a.dtype == object:
+            nzmask = np.array([bool(x != 0) for x in a.reshape(-1)]).reshape(a.shape)
+        else:
+            scale = np.abs(a).max() if a.size else 0
+            nzmask = np.abs(a) > 1e-14 * max(scale, 1e-300)
+        for idx in zip(*np.nonzero(nzmask)):
             tot = np.zeros(basis.qn_size, dtype=int)
             for i, c in enumerate(snode.children):
                 tot = tot + np.asarray(c.qn)[idx[i]]
